@@ -175,7 +175,7 @@ def settings_for(draw, algo: str, space, with_seed: bool = True):
             elif mode == "list":
                 s["centers"] = [draw(centre) for _ in range(d)]
     elif algo in FULLFACT:
-        mode = draw(st.sampled_from(["n", "n", "scalar", "list"]))
+        mode = draw(st.sampled_from(["n", "scalar", "list", "list"]))
         top = 4 if d <= 3 else 3
         if mode == "n":
             k = draw(st.integers(1, 4 if d <= 3 else 3))
@@ -183,7 +183,8 @@ def settings_for(draw, algo: str, space, with_seed: bool = True):
         elif mode == "scalar":
             s["levels"] = draw(st.integers(1, top))
         else:
-            s["levels"] = [draw(st.integers(1, top)) for _ in range(d)]
+            # one level count per direction; single-level directions at arbitrary positions (before, between, after the others)
+            s["levels"] = [draw(st.sampled_from([1, 1, 2, 3, top])) for _ in range(d)]
     elif algo == "OT_SOBOL_INDICES":
         second = draw(st.sampled_from([None, True, False]))
         if second is not None:
@@ -509,6 +510,53 @@ def check_custom(p, ctx, values, oracle: str):
     ctx.check(bool(np.all(values[:, is_int] == pts[:, is_int])), f"{oracle}:custom", "integer components of the custom samples were altered")
 
 
+def factorial_levels(p) -> list[int]:
+    """Number of levels of each direction of a full-factorial design."""
+    s, d = p["settings"], _dim(p["space"])
+    if s.get("n_samples"):
+        return [largest_root(s["n_samples"], d)] * d
+    return [s["levels"]] * d if isinstance(s["levels"], int) else list(s["levels"])
+
+
+def check_factorial_structure(p, ctx, values, unit):
+    """Direction j of a full-factorial design takes exactly levels[j] values; every combination occurs once.
+
+    A single-level direction sits at the centre; the OpenTURNS and pyDOE designs are the same set of points.
+    """
+    levels = factorial_levels(p)
+    rows = {tuple(np.round(r, 12)) for r in unit}
+    ctx.check(len(rows) == unit.shape[0], "compute:factorial", f"{unit.shape[0]} unit samples but only {len(rows)} distinct combinations")
+    for j, n_levels in enumerate(levels):
+        distinct = np.unique(np.round(unit[:, j], 12))
+        ctx.check(distinct.size == n_levels, "compute:factorial",
+                  f"direction {j} takes {distinct.size} distinct values {distinct.tolist()[:6]}, its number of levels is {n_levels} (levels {levels})")
+        if n_levels == 1:
+            ctx.check(abs(distinct[0] - 0.5) <= 4 * EPS, "compute:factorial", f"single-level direction {j} is at {distinct[0]!r}, not at the centre 0.5")
+        else:
+            # the documented designs include both ends of every direction with at least two levels
+            ctx.check(abs(distinct[0]) <= 4 * EPS and abs(distinct[-1] - 1.0) <= 4 * EPS, "compute:factorial",
+                      f"direction {j} spans [{distinct[0]!r}, {distinct[-1]!r}], not [0, 1]")
+    other = "PYDOE_FULLFACT" if p["algo"] == "OT_FULLFACT" else "OT_FULLFACT"
+    twin_settings = {k: v for k, v in p["settings"].items() if k != "seed"}
+    twin = np.asarray(call(dict(p, algo=other, settings=twin_settings), "lib").samples, dtype=float)
+    ctx.check(twin.shape == values.shape, "compute:factorial_twin", f"{p['algo']} gives {values.shape[0]} samples, {other} {twin.shape[0]}")
+    lb, ub, _ = flat(p["space"])
+    tol = 8 * EPS * np.maximum(1.0, np.maximum(np.abs(lb), np.abs(ub)))
+    width = np.where(ub > lb, ub - lb, 1.0)
+
+    def ordered(points):
+        # sort by the level index of each coordinate (an integer up to rounding noise), not by raw floats
+        keys = np.rint((points - lb) / width * (np.array(levels) - 1))
+        return points[np.lexsort(keys.T[::-1])]
+
+    a, b = ordered(values), ordered(twin)
+    ctx.check(bool(np.all(np.abs(a - b) <= tol)), "compute:factorial_twin", f"{p['algo']} and {other} are not the same set of points for levels {levels}", first=a[:4], second=b[:4])
+    if isinstance(p["settings"].get("levels"), list):
+        ones = [j for j, n in enumerate(levels) if n == 1]
+        if ones and any(n > 1 for n in levels[ones[0] :]):
+            ctx.cls("factorial_single_level_direction_before_a_multi_level_one")
+
+
 def classify(p, ctx, oracle: str):
     lb, ub, is_int = flat(p["space"])
     d = lb.size
@@ -565,6 +613,8 @@ def case_compute(p, ctx):
         reseed(p["rng"] + 1)
         unit = call(p, p["route"], unit_sampling=True).samples
         check_unit_and_image(p, ctx, values, unit, "compute", "compute_doe")
+        if p["algo"] in FULLFACT:
+            check_factorial_structure(p, ctx, values, unit)
         if p["algo"] == "DiagonalDOE":
             n = values.shape[0]
             names = [v["name"] for v in p["space"] for _ in range(v["size"])]
